@@ -358,6 +358,11 @@ class d_sub:
     cases = _addsub("sub", sym.sub)
 
 
+def neg_signature(self):
+    return dict(years=sym.neg(self._years), months=sym.neg(self._months), weeks=sym.neg(self._weeks), days=sym.neg(self._remaining_days),
+                hours=0, minutes=0, seconds=sym.neg(self._seconds), microseconds=sym.neg(self._microseconds))
+
+
 @contract("pendulum.duration.Duration.__neg__", props=["C10", "C04"])
 class d_neg:
     args = _self
@@ -365,12 +370,14 @@ class d_neg:
     raises = [(OverflowError, "native_range", lambda self: Not(stdlib.td_in_range(sym.neg(self.us))))]
 
     def result(F, self):
-        o, _ = mk_duration(F, self.cls, sym.neg(self.us), sym.neg(self._years), sym.neg(self._months), hint="neg")
+        o, _ = mk_duration(F, self.cls, sym.neg(self.us), sym.neg(self._years), sym.neg(self._months), signature=neg_signature(self), hint="neg")
         return o
 
     def ensures(result, self):
+        sig = neg_signature(self)
         return [("class", result.cls is self.cls), ("native_length", eq(result.us, sym.neg(self.us))),
-                ("years_months_negated", And(eq(result._years, sym.neg(self._years)), eq(result._months, sym.neg(self._months))))] + \
+                ("years_months_negated", And(eq(result._years, sym.neg(self._years)), eq(result._months, sym.neg(self._months)))),
+                ("components_recorded", And(*[sym.eq(result._signature[k], sig[k]) for k in sig]))] + \
                [(f"decomposition.{l}", c) for l, c in dur_rel(result)]
 
 
